@@ -6,10 +6,35 @@
 
 #include <orc/orconce.h>
 #include <orc/orcdebug.h>
+#include <orc/orcverif.h>
 
 #if defined(HAVE_THREAD_PTHREAD)
 
 #include <pthread.h>
+
+#ifdef ORC_VERIF_HOOKS
+#include <stdlib.h>
+#include <unistd.h>
+#include <orc/orcverif.h>
+/* ORC_VERIF_YIELD=<seed>: a short pseudo-random pause before a mutex is
+ * requested, to widen the windows a scheduler rarely opens.  Timing only. */
+static void
+orc_verif_yield (void)
+{
+  static int mode = -1;
+  static __thread unsigned int x;
+  if (mode < 0) {
+    const char *e = getenv ("ORC_VERIF_YIELD");
+    mode = (e && e[0]) ? atoi (e) + 1 : 0;
+  }
+  if (!mode) return;
+  if (!x) x = (unsigned int) mode * 2654435761u + (unsigned int) (unsigned long) pthread_self ();
+  x ^= x << 13; x ^= x >> 17; x ^= x << 5;
+  if ((x & 3) == 0) usleep ((x >> 8) % 200);
+}
+#else
+#define orc_verif_yield() do { } while (0)
+#endif
 
 static pthread_mutex_t once_mutex = PTHREAD_MUTEX_INITIALIZER;
 static pthread_mutex_t global_mutex = PTHREAD_MUTEX_INITIALIZER;
@@ -17,24 +42,30 @@ static pthread_mutex_t global_mutex = PTHREAD_MUTEX_INITIALIZER;
 void
 orc_once_mutex_lock (void)
 {
+  orc_verif_yield ();
   pthread_mutex_lock (&once_mutex);
+  ORC_VERIF_EMIT ("\"e\":\"Lock\",\"m\":\"o\"");
 }
 
 void
 orc_once_mutex_unlock (void)
 {
+  ORC_VERIF_EMIT ("\"e\":\"Unlock\",\"m\":\"o\"");
   pthread_mutex_unlock (&once_mutex);
 }
 
 void
 orc_global_mutex_lock (void)
 {
+  orc_verif_yield ();
   pthread_mutex_lock (&global_mutex);
+  ORC_VERIF_EMIT ("\"e\":\"Lock\",\"m\":\"g\"");
 }
 
 void
 orc_global_mutex_unlock (void)
 {
+  ORC_VERIF_EMIT ("\"e\":\"Unlock\",\"m\":\"g\"");
   pthread_mutex_unlock (&global_mutex);
 }
 
